@@ -91,6 +91,8 @@ class Run:
         self.canaries_ok = 0
         self.canaries_total = 0
         self.bounded_notes = []
+        import shutil
+        shutil.rmtree(os.path.join(VERIF, "replays", prop_id), ignore_errors=True)   # replays belong to one run
 
     # ---- recording -------------------------------------------------------------------------
     def add(self, name, status, backend="z3", time_s=0.0, config=None, detail=None, clause=None, bounded=False):
